@@ -158,6 +158,11 @@ pub fn search(_item: &str, seed: u64, _hint: &Value) -> Option<(Value, String)> 
     for s in sizes { for comp in [false, true] {
         scripts.push(vec![json!(["compress", comp]), json!(["append", 60000, 9, true]), json!(["append", s, 5, !comp]), json!(["append", 3, 6, false]), json!(["sync"]), json!(["read", 1]), json!(["readseq", 1]), json!(["read", 2]), json!(["iter"]), json!(["reopen"]), json!(["readseq", 1])]);
     }}
+    // C18: a long-lived reader whose read-ahead window (beyond the first 64 KiB) was filled before later records were flushed
+    for first in [60000usize, 66000, 130000] { for comp in [false, true] {
+        scripts.push(vec![json!(["compress", comp]), json!(["append", first, 21, false]), json!(["append", 6000, 22, false]), json!(["sync"]), json!(["iter"]), json!(["readseq", 1]),
+                          json!(["append", 500, 23, false]), json!(["sync"]), json!(["readseq", 2]), json!(["iter"]), json!(["append", 700, 24, true]), json!(["sync"]), json!(["readseq", 3]), json!(["read", 3]), json!(["iter"])]);
+    }}
     // C19: records that end within a few bytes of the segment end, compressible and not, compression on and off
     for comp in [true, false] { for slack in 0..24usize { for compressible in [false, true] {
         scripts.push(vec![json!(["size", 4096]), json!(["compress", comp]), json!(["append", 3000, 11, false]), json!(["append_to_end", slack, 12, compressible]), json!(["sync"]), json!(["iter"]), json!(["reopen"]), json!(["iter"])]);
